@@ -354,6 +354,10 @@ def class_(
 
     param_names = frozenset(intermediate_repr["params"].keys())
     if returns:
+        # Work on a shallow copy so that the IR given by the caller is left as it was
+        intermediate_repr = dict(
+            intermediate_repr, params=OrderedDict(intermediate_repr["params"])
+        )
         intermediate_repr["params"].update(returns)
         del intermediate_repr["returns"]
 
